@@ -79,6 +79,9 @@ PLAN["C05"] += g2("full", "release", 3, 4, 5)
 PLAN["C08"] += g2("full", "dev", 3, 4, 5)
 PLAN["C13"] += g2("full", "release", 3, 4, 5)
 PLAN["C07"] += g2("full", "dev", 6, 4, 5, faults=1) + g2("nofin", "release", 2, 3, 4, faults=1)
+G3 = {"engine": "g3", "config": "full", "profile": "dev", "tiers": ["thorough"], "workers": 8, "args": {}, "thorough": {"runs": 40000}, "timeout": 5000}
+for _p in ("C01", "C03", "C05", "C07"):
+    PLAN[_p] = PLAN[_p] + [dict(G3)]
 PLAN["C18"] = [{"engine": "derive", "config": "default", "profile": "dev", "args": {}, "quick": {}, "thorough": {}}]
 PLAN["C19"] = simple("threads", [("full", "dev"), ("full", "release"), ("nofin", "dev")], 150, 6000) + \
     simple("teardown", [("full", "dev"), ("full", "release"), ("default", "dev"), ("min", "release")], 150, 4000)
@@ -168,6 +171,7 @@ CLAIMS["C19"] = claim("property-based differential testing (concurrent vs solo e
 NOT_APPLICABLE = []
 
 ENGINES_EXTRA = [
+    {"name": "g3-libfuzzer", "path": "/verif/harness/fuzz (cargo +nightly fuzz run heap)", "serves_properties": ["C01", "C03", "C05", "C07"], "kind_free_text": "coverage-guided fuzzing (libFuzzer + AddressSanitizer) of byte-decoded heap programs with fault plans; same interpreter and rules inside the target; thorough tier only; fixed -runs and -seed per worker"},
     {"name": "g2-small-scope-enumerator", "path": "/verif/harness/src/main.rs (rccv g2)", "serves_properties": ["C01", "C02", "C04", "C05", "C07", "C08", "C13"], "kind_free_text": "exhaustive enumeration of all operation sequences up to a depth over a 50-letter reduced alphabet (<=3 handles addressable), same interpreter and rules; seed-independent floor under the random search"},
     {"name": "g4-crash-point-enumerator", "path": "/verif/harness/src/main.rs (rccv g4)", "serves_properties": ["C07", "C14"], "kind_free_text": "enumerates every callback invocation index of every callback kind of each generated program as a panic point; sampled pairs; own delta-debugging shrinker"},
     {"name": "policy", "path": "/verif/harness/src/policy.rs (rccv policy)", "serves_properties": ["C15"], "kind_free_text": "proptest workloads for the automatic collection policy"},
